@@ -398,6 +398,7 @@ class RecipeReplay:
                     rows = [chr(ord("A") + r) for r in range(nr)]
                     stated = {}
                     bad = False
+                    twice = None
                     for part in re.findall(r"([-0-9.e]+ \w+) to \[([^\]]*)\]", m.group(4)):
                         q = lab.stated(part[0], ("L",))
                         if q is None:
@@ -410,9 +411,14 @@ class RecipeReplay:
                             (r0, c0), (r1, c1) = rc(ends[0]), rc(ends[-1])
                             for r in range(r0, r1 + 1):
                                 for c in range(c0, c1 + 1):
+                                    if r * nc + c in stated:
+                                        twice = addr          # a well named under two amounts: the sentence contradicts itself
                                     stated[r * nc + c] = q
                     if bad:
                         self.report("C19", "step_instruction_unreadable", k19, f"step {i + 1}: {text!r}", ev)
+                        continue
+                    if twice:
+                        self.report("C19", "step_amount_misstated", dict(k19, target="P"), f"step {i + 1}: {text!r} names a well of {twice} under two different amounts", ev)
                         continue
                     for w, x in enumerate(added):
                         q = stated.get(w)
